@@ -345,6 +345,18 @@ ADDENDA12 = {
     "C18": ("; result flush in the C generator's templates", " Also decides that the C back end's templates of the result-flushing float opcodes store through ORC_DENORMAL."),
 }
 
+ADDENDA13 = {
+    "C02": ("; shift-count masks and divisor guards of the emulator", " Also decides that an emulated shift masks its count with at least width-1 or not at all, and that an emulated integer division is guarded by a zero test of the divisor itself."),
+    "C04": ("; divisor guards of the C templates", " Also decides that an integer division in a C template is guarded by a zero test of the divisor itself (same operand, same mask)."),
+    "C07": ("; divisor guards of the C templates (shared with C04)", " Also decides that the backup / Orc-free C of an integer division cannot divide by zero where emulation returns the reference constant."),
+    "C14": ("; capacity of the compiler's own tables against rewritten programs (shared with C05)", " Also decides that the compiler's appenders check their fixed tables before storing (a parsed program grows while it is rewritten)."),
+    "C09": ("; the write and execute views of a region are one pointer or shared mappings of one descriptor", " Also decides that every way of obtaining code memory makes region->write_ptr and region->exec_ptr views of the same pages."),
+    "C10": ("; sign of the row stride added to executor pointers (shared with C03)", " Also decides that the int stride is widened with its sign before it is added to the 8-byte array pointers between rows."),
+    "C12": ("; finite evaluation of the register-name helpers over every register of their bank", " Also decides that the listing's register-name helpers name every register of the xmm, mm and ymm banks (both VEX lengths) by its own name."),
+    "C13": ("; built-in names win the opcode lookup (shared with C20)", " Also decides that a name the sys table has resolves to the sys entry, the only kind of opcode the byte encoding can index."),
+    "C16": ("; setters read their argument before releasing the string they replace", " Also decides that the string setters of OrcProgram duplicate their argument before freeing the old value (the getters hand out the stored pointer)."),
+}
+
 
 def main():
     props = [json.loads(l) for l in open(os.path.join(VERIF, "properties.jsonl"))]
@@ -389,6 +401,9 @@ def main():
                 tech, text = tech + a[0], text + a[1]
             if pid in ADDENDA12:
                 a = ADDENDA12[pid]
+                tech, text = tech + a[0], text + a[1]
+            if pid in ADDENDA13:
+                a = ADDENDA13[pid]
                 tech, text = tech + a[0], text + a[1]
             checks.append({
                 "property_id": pid,
